@@ -839,6 +839,12 @@ class ExcludeRegionState(object):  # pylint: disable=too-many-instance-attribute
             z=newZ
         )
 
+        # The generated moves use absolute coordinates.  If the file is in relative positioning
+        # mode, switch the printer to absolute mode for them and back afterwards.
+        relativeMode = not self.position.X_AXIS.absoluteMode
+        if (relativeMode):
+            returnCommands.append("G90")
+
         if (zDelta > 0):
             # Move Z axis _up_ to new position
             # (hopefully help avoid hitting any part we may pass over)
@@ -858,6 +864,9 @@ class ExcludeRegionState(object):  # pylint: disable=too-many-instance-attribute
             # Move Z axis _down_ to new position
             # (hopefully we avoided hitting any part we may pass over)
             returnCommands.append(moveZcmd)
+
+        if (relativeMode):
+            returnCommands.append("G91")
 
         self._logger.info(
             "STOP excluding: cmd=%s, returnCommands=%s, numCommands=%s, numExcludedCommands=%s, " +
